@@ -470,9 +470,35 @@ func ResolveAnchors(p *Prog) *Anchors {
 		ps, rs := sigParams(fn), sigResults(fn)
 		return fn.Signature.Recv() == nil && fn.Parent() == nil && len(ps) == 3 && isHTTPResponsePtr(ps[0]) && isNamed(ps[1], a.ReqDirT) && isNamed(ps[2], a.RespDirT) && len(rs) == 1 && isBoolType(rs[0])
 	})
+	gateWired := func() map[*ssa.Function]bool {
+		out := map[*ssa.Function]bool{}
+		instrsOf(a.Root, func(in ssa.Instruction) {
+			ci, ok := in.(ssa.CallInstruction)
+			if !ok || !ci.Common().IsInvoke() {
+				return
+			}
+			sig, ok := ci.Common().Method.Type().(*types.Signature)
+			if !ok || sig.Params().Len() != 1 || sig.Results().Len() != 1 || !isHTTPRequestPtr(sig.Params().At(0).Type()) || !isBoolType(sig.Results().At(0).Type()) {
+				return
+			}
+			for _, cal := range p.Callees(ci) {
+				out[cal] = true
+				if len(cal.Blocks) == 1 {
+					for _, i2 := range cal.Blocks[0].Instrs {
+						if c2, ok := i2.(*ssa.Call); ok {
+							for _, t := range p.Callees(c2) {
+								out[t] = true
+							}
+						}
+					}
+				}
+			}
+		})
+		return out
+	}()
 	pick("gate", inReach, func(fn *ssa.Function) bool {
 		ps, rs := sigParams(fn), sigResults(fn)
-		return fn.Signature.Recv() == nil && fn.Parent() == nil && len(ps) == 1 && isHTTPRequestPtr(ps[0]) && len(rs) == 1 && isBoolType(rs[0])
+		return gateWired[fn] && fn.Signature.Recv() == nil && fn.Parent() == nil && len(ps) == 1 && isHTTPRequestPtr(ps[0]) && len(rs) == 1 && isBoolType(rs[0])
 	})
 	strPred := func(fn *ssa.Function) bool {
 		ps, rs := sigParams(fn), sigResults(fn)
@@ -513,21 +539,42 @@ func ResolveAnchors(p *Prog) *Anchors {
 		}
 	}
 	a.FnSet["statusTables"] = statusTables
+	staticTree := func(root *ssa.Function) map[*ssa.Function]bool {
+		seen := map[*ssa.Function]bool{}
+		var rec func(f *ssa.Function)
+		rec = func(f *ssa.Function) {
+			if seen[f] || !p.IsRepoFunc(f) {
+				return
+			}
+			seen[f] = true
+			instrsOf(f, func(in ssa.Instruction) {
+				if c := callOf(in); c != nil {
+					if sc := c.StaticCallee(); sc != nil {
+						rec(sc)
+					}
+				}
+			})
+		}
+		rec(root)
+		return seen
+	}
 	if ff != nil {
+		ft := staticTree(ff)
 		pick("heurStatus", nil, func(fn *ssa.Function) bool {
 			for _, st := range statusTables {
 				if st == fn {
-					return callsWhere(ff, func(c *ssa.CallCommon) bool { return c.StaticCallee() == fn })
+					return ft[fn] // the status table consulted (directly or through a helper) by the freshness function
 				}
 			}
 			return false
 		})
 	}
 	if cs := a.Fn["canStore"]; cs != nil {
+		ct := staticTree(cs)
 		pick("understood", nil, func(fn *ssa.Function) bool {
 			for _, st := range statusTables {
 				if st == fn && fn != a.Fn["heurStatus"] {
-					return callsWhere(cs, func(c *ssa.CallCommon) bool { return c.StaticCallee() == fn })
+					return ct[fn]
 				}
 			}
 			return false
@@ -537,9 +584,39 @@ func ResolveAnchors(p *Prog) *Anchors {
 		ps, rs := sigParams(fn), sigResults(fn)
 		return fn.Signature.Recv() != nil && len(ps) == 2 && isPtrToNamed(ps[0], a.FreshT) && fn.Signature.Variadic() && len(rs) == 1 && isBoolType(rs[0])
 	})
+	// wired functions: what RoundTrip's interface calls resolve to (through forwarding adapters)
+	wired := func(sigOK func(*types.Signature) bool) map[*ssa.Function]bool {
+		out := map[*ssa.Function]bool{}
+		instrsOf(a.Root, func(in ssa.Instruction) {
+			ci, ok := in.(ssa.CallInstruction)
+			if !ok || !ci.Common().IsInvoke() {
+				return
+			}
+			sig, ok := ci.Common().Method.Type().(*types.Signature)
+			if !ok || !sigOK(sig) {
+				return
+			}
+			for _, cal := range p.Callees(ci) {
+				out[cal] = true
+				if len(cal.Blocks) == 1 {
+					for _, i2 := range cal.Blocks[0].Instrs {
+						if c2, ok := i2.(*ssa.Call); ok {
+							for _, t := range p.Callees(c2) {
+								out[t] = true
+							}
+						}
+					}
+				}
+			}
+		})
+		return out
+	}
+	keyWired := wired(func(sig *types.Signature) bool {
+		return sig.Params().Len() == 1 && sig.Results().Len() == 1 && ptrTo(sig.Params().At(0).Type(), "net/url", "URL") && isStringType(sig.Results().At(0).Type())
+	})
 	pick("urlKey", inReach, func(fn *ssa.Function) bool {
 		ps, rs := sigParams(fn), sigResults(fn)
-		return fn.Signature.Recv() == nil && fn.Parent() == nil && len(ps) == 1 && ptrTo(ps[0], "net/url", "URL") && len(rs) == 1 && isBasicKind(rs[0], types.String)
+		return keyWired[fn] && fn.Signature.Recv() == nil && fn.Parent() == nil && len(ps) == 1 && ptrTo(ps[0], "net/url", "URL") && len(rs) == 1 && isBasicKind(rs[0], types.String)
 	})
 	pick("sameOrigin", inReach, func(fn *ssa.Function) bool {
 		ps, rs := sigParams(fn), sigResults(fn)
